@@ -8,7 +8,7 @@ def typeref(t):
         return t["base"]
     hi = "?" if t["hi"] == -1 else str(t["hi"])
     return "%s [%d:%s] OF %s%s%s" % (t["agg"], t["lo"], hi, "OPTIONAL " if t["optelem"] else "",
-                                     "UNIQUE " if t["uniq"] else "", t["base"])
+                                     "UNIQUE " if t["uniq"] else "", typeref(t["inner"]) if "inner" in t else t["base"])
 
 
 def tree(t):
@@ -113,6 +113,28 @@ def mutate(s, m):
         E[0]["where"][0]["expr"] = "nosuch_f(a1) > 0"
     elif cl == "undef_attr_where":
         E[0]["where"][0]["expr"] = "nosuch_a > 0"
+    elif cl == "undef_ref":
+        INT = {"base": "INTEGER", "agg": "none", "lo": 0, "hi": 0, "uniq": False, "optelem": False}
+        BOOL = dict(INT, base="BOOLEAN")
+        pos = m["pos"]
+        if pos.startswith("where_"):
+            E[0]["where"] = E[0]["where"] + [{"label": "wu", "expr": {"where_left_rel": "nosuch_a > a1", "where_right_rel": "a1 > nosuch_a",
+                                                                   "where_arith": "nosuch_a + a1 > 0"}[pos]}]
+        elif pos == "rule_left_rel":
+            body = "RULE ru FOR (e1);\nWHERE\n  wr : nosuch_a >= SIZEOF(e1);\nEND_RULE;\n"
+        elif pos == "func_local_left_rel":
+            body = ("FUNCTION fu(p1 : INTEGER) : BOOLEAN;\n  LOCAL\n    v : INTEGER := 1;\n  END_LOCAL;\n"
+                    "  IF nosuch_a <= v THEN\n    RETURN (TRUE);\n  END_IF;\n  RETURN (p1 > v);\nEND_FUNCTION;\n")
+        else:
+            ex, ty = {"derive_left_rel": ("nosuch_a > 1", BOOL), "derive_right_rel": ("1 < nosuch_a", BOOL), "derive_plain": ("nosuch_a", INT),
+                      "derive_in_left": ("nosuch_a IN [1, 2]", BOOL), "derive_in_right": ("a1 IN [nosuch_a, 2]", BOOL),
+                      "derive_eq_left": ("nosuch_a = a1", BOOL), "derive_insteq_left": ("nosuch_a :=: a1", BOOL),
+                      "derive_interval": ("{1 < nosuch_a < 3}", BOOL), "derive_neg": ("-nosuch_a", INT),
+                      "derive_query": ("SIZEOF(QUERY(x <* [1, 2] | x > nosuch_a))", INT),
+                      "derive_like_left": ("nosuch_a LIKE 'a?'", BOOL), "derive_arith_left": ("nosuch_a * 2", INT),
+                      "derive_aggr_init": ("SIZEOF([1, nosuch_a])", INT), "derive_builtin_arg": ("ABS(nosuch_a)", INT),
+                      "derive_index": ("nosuch_a[1]", INT), "derive_group": ("SELF\\e1.nosuch_a", INT)}[pos]
+            E[0]["derive"] = E[0]["derive"] + [{"name": "du", "ty": ty, "expr": ex}]
     elif cl == "undef_attr_inverse":
         E[0]["inverse"][0]["attr"] = "nosuch_a"
     elif cl == "undef_attr_unique":
